@@ -114,6 +114,20 @@ class STIXdatetime(dt.datetime):
     def __repr__(self):
         return "'%s'" % format_datetime(self)
 
+    def __reduce_ex__(self, protocol):
+        # datetime's own pickle state knows nothing of the precision
+        # metadata: copy.copy() and pickle would lose them, and a copied or
+        # unpickled object would write its timestamps with other digits.
+        plain = dt.datetime(
+            self.year, self.month, self.day, self.hour, self.minute,
+            self.second, self.microsecond, self.tzinfo,
+        )
+        # (fold apart: the older pickle protocols do not keep it)
+        return (
+            _restore_stixdatetime,
+            (plain, self.fold, self.precision, self.precision_constraint),
+        )
+
     def __deepcopy__(self, memo):
         # The default implementation re-creates the object from datetime's
         # pickle state, which loses the precision metadata.  The metadata are
@@ -122,6 +136,14 @@ class STIXdatetime(dt.datetime):
             self, precision=self.precision,
             precision_constraint=self.precision_constraint,
         )
+
+
+def _restore_stixdatetime(dttm, fold, precision, precision_constraint):
+    """Re-create a STIXdatetime from what STIXdatetime.__reduce_ex__ kept."""
+    return STIXdatetime(
+        dttm.replace(fold=fold), precision=precision,
+        precision_constraint=precision_constraint,
+    )
 
 
 def deduplicate(stix_obj_list):
